@@ -695,7 +695,7 @@ theorem edge_removeExpired (order : List Nat) (s : Pool) : EReach (edge s) (edge
   | cons a l ih =>
     simp only [List.foldl_cons]
     refine EReach.trans ?_ (ih _)
-    rw [edge_removeEntry]; exact .rm a (.refl _)
+    rw [edge_removeWithDesc]; exact EReach.foldRm _ _
 
 theorem edge_foldAdd (l : List Entry) (s : Pool) :
     EReach (edge s) (edge (l.foldl (fun s x => (addEntry s x.tx .pending x.ts).1) s)) := by
